@@ -154,7 +154,7 @@ func rulesC17(c *Ctx) {
 		for _, w := range Writes(ab.Body, false) {
 			if as, ok := w.Stmt.(*ast.AssignStmt); ok && len(as.Lhs) == 2 && len(as.Rhs) == 1 {
 				if ce, ok := ast.Unparen(as.Rhs[0]).(*ast.CallExpr); ok && ab.Callee(ce) != nil && ab.Callee(ce).FullName() == "slices.BinarySearch" {
-					okBS = ab.IsField(ce.Args[0], sorted) && ab.ObjOf(ce.Args[1]) == types.Object(ab.Param("uid"))
+					okBS = ab.IsField(ce.Args[0], sorted) && len(ab.NonRecvParams()) == 1 && ab.ObjOf(ce.Args[1]) == types.Object(ab.NonRecvParams()[0])
 					idx, found = ab.ObjOf(as.Lhs[0]), ab.ObjOf(as.Lhs[1])
 				}
 			}
@@ -171,13 +171,28 @@ func rulesC17(c *Ctx) {
 		c.Check(nInc == 1, "above:one-increment", ab, nil, "one conditional increment")
 		pl := c.Fn(pM, "", "paginateList")
 		pg := pl.Graph()
-		pageSize := pl.Param("pageSize")
+		pageSize := pl.ParamWhere(func(t types.Type) bool { b, ok := t.(*types.Basic); return ok && b.Kind() == types.Int })
+		c.Need(pageSize != nil, "paginateList: the page-size parameter")
+		// locals by role: the element counter is the incremented local; the page is the slice handed to setFunc
+		var countVar, pageVar types.Object
+		for _, w := range Writes(pl.Body, false) {
+			if _, isInc := w.Stmt.(*ast.IncDecStmt); isInc {
+				countVar = pl.ObjOf(w.LHS)
+			}
+		}
+		setFunc := pl.NonRecvParams()[len(pl.NonRecvParams())-1]
+		for _, call := range pl.AllCalls(pl.Body, false) {
+			if pl.ObjOf(call.Fun) == types.Object(setFunc) && len(call.Args) == 2 {
+				pageVar = pl.ObjOf(call.Args[1])
+			}
+		}
+		c.Need(countVar != nil && pageVar != nil, "paginateList: counter and page variables")
 		// break at count == pageSize+1 before the append
 		okBreak, okNoMore := false, false
 		for _, cv := range pg.condVertices() {
 			cond := pg.Node(cv - 1).(ast.Expr)
 			x, y, op, ok := binaryCmp(cond)
-			if !ok || exprStr(x) != "count" {
+			if !ok || pl.ObjOf(x) != countVar {
 				continue
 			}
 			b, isB := ast.Unparen(y).(*ast.BinaryExpr)
@@ -191,7 +206,7 @@ func rulesC17(c *Ctx) {
 			if op == token.EQL {
 				// the append happens only on the false branch of this test (the true branch leaves the loop)
 				for _, w := range Writes(pl.Body, false) {
-					if ce, ok := ast.Unparen(w.RHS).(*ast.CallExpr); ok && w.RHS != nil && pl.BuiltinName(ce) == "append" && exprStr(w.LHS) == "features" {
+					if ce, ok := ast.Unparen(w.RHS).(*ast.CallExpr); ok && w.RHS != nil && pl.BuiltinName(ce) == "append" && pl.ObjOf(w.LHS) == pageVar {
 						wv := pg.VertexOf(w.Stmt)
 						seenT, _ := pg.reach([]int{t}, nil, nil)
 						okBreak = !seenT[wv] && hasAtom(pg.GuardsAt(wv), func(a Atom) bool { return !a.Val && a.E == ast.Unparen(cond) })
@@ -210,8 +225,8 @@ func rulesC17(c *Ctx) {
 		okLast := false
 		for _, call := range pl.CallsIn(pl.Body, enc, false) {
 			if uc, ok := ast.Unparen(call.Args[0]).(*ast.CallExpr); ok && strings.HasSuffix(exprStr(uc.Fun), "uniqueID") && len(uc.Args) == 1 {
-				if ix, ok := ast.Unparen(uc.Args[0]).(*ast.IndexExpr); ok && exprStr(ix.X) == "features" {
-					if b, ok := ast.Unparen(ix.Index).(*ast.BinaryExpr); ok && b.Op == token.SUB && exprStr(b.X) == "len(features)" {
+				if ix, ok := ast.Unparen(uc.Args[0]).(*ast.IndexExpr); ok && pl.ObjOf(ix.X) == pageVar {
+					if b, ok := ast.Unparen(ix.Index).(*ast.BinaryExpr); ok && b.Op == token.SUB && func() bool { lc, ok := ast.Unparen(b.X).(*ast.CallExpr); return ok && pl.BuiltinName(lc) == "len" && pl.ObjOf(lc.Args[0]) == pageVar }() {
 						if k, isC := pl.ConstInt(b.Y); isC && k == 1 {
 							okLast = true
 						}
@@ -223,7 +238,7 @@ func rulesC17(c *Ctx) {
 		// first page vs cursor page
 		okSeq := 0
 		for _, w := range Writes(pl.Body, false) {
-			if exprStr(w.LHS) != "seq" || w.RHS == nil {
+			if w.RHS == nil {
 				continue
 			}
 			ce, ok := ast.Unparen(w.RHS).(*ast.CallExpr)
@@ -234,7 +249,8 @@ func rulesC17(c *Ctx) {
 			case "all":
 				okSeq++
 			case "above":
-				if exprStr(ce.Args[0]) == "pageToken.LastUID" {
+				// the id comes from the decoded cursor
+				if name, on := pl.SelectorOn(ce.Args[0], pl.VarFromCall(c.FnObj(pM, "", "decodeCursor"), 0)); on && name == "LastUID" {
 					okSeq++
 				}
 			}
@@ -363,8 +379,8 @@ func rulesC17(c *Ctx) {
 		c.touch(it)
 		g := it.Graph()
 		yield := it.Params()[0]
-		listFunc := p.Param("listFunc")
-		params := p.Param("params")
+		c.Need(len(p.Params()) == 4, "paginate(ctx, params, listFunc, items)")
+		params, listFunc, itemsP := p.Params()[1], p.Params()[2], p.Params()[3]
 		var lv = -1
 		for v := 0; v < g.N; v++ {
 			if n := g.Node(v); n != nil {
@@ -384,7 +400,7 @@ func rulesC17(c *Ctx) {
 			if !ok {
 				return
 			}
-			if ce, ok := ast.Unparen(rs.X).(*ast.CallExpr); ok && it.ObjOf(ce.Fun) == types.Object(p.Param("items")) {
+			if ce, ok := ast.Unparen(rs.X).(*ast.CallExpr); ok && it.ObjOf(ce.Fun) == types.Object(itemsP) {
 				for _, call := range it.AllCalls(rs.Body, false) {
 					if it.ObjOf(call.Fun) == types.Object(yield) && it.ObjOf(call.Args[0]) == it.ObjOf(rs.Value) && isNilIdent(call.Args[1]) {
 						okItems = true
@@ -431,10 +447,18 @@ func rulesC17(c *Ctx) {
 		c.Check(okCopy, "paginate:follows-next-cursor", it, nil, "the next cursor is copied into the params on every path that fetches another page (otherwise the same page is fetched forever)")
 		c.Check(okStop, "paginate:stops-on-empty-cursor", it, nil, "iteration ends when NextCursor is nil or empty")
 		// error: yield(nil, err) then return
+		var listErr types.Object
+		for _, w := range Writes(it.Body, false) {
+			if as, ok := w.Stmt.(*ast.AssignStmt); ok && len(as.Lhs) == 2 && len(as.Rhs) == 1 {
+				if ce, ok := ast.Unparen(as.Rhs[0]).(*ast.CallExpr); ok && it.ObjOf(ce.Fun) == types.Object(listFunc) {
+					listErr = it.ObjOf(as.Lhs[1])
+				}
+			}
+		}
 		okErr := false
 		for _, cv := range g.condVertices() {
 			cond := g.Node(cv - 1).(ast.Expr)
-			if x, twn, ok := NilTest(cond); ok && !twn && exprStr(x) == "err" {
+			if x, twn, ok := NilTest(cond); ok && !twn && it.ObjOf(x) != nil && it.ObjOf(x) == listErr {
 				t, _ := g.BranchTargets(cv - 1)
 				seen, _ := g.reach([]int{t}, nil, nil)
 				okErr = !seen[lv]
